@@ -1,25 +1,32 @@
 from propcfg.C16 import TB
 
 def nontrivial(cmd, inp, impl, prev):
-    # some ink was drawn: the A canvas (4th token of the output) is not all zero
+    # some ink was drawn: the A canvas (6th token of the output `sw lh lh1 segw segw1 A B C`) is not all zero
     t = impl.split(" ")
-    return len(t) >= 3 and t[2].strip("0") not in ("", "-")
+    return len(t) >= 8 and t[5].strip("0") not in ("", "-")
 
 PROP = dict(
     family="c20", session_start=None, trivial=nontrivial,
     n=dict(quick=1500, thorough=30000),
     exhaustive=dict(quick=False, thorough=False),
-    rule="every byte 0..255 (except LF) x 3 fonts x proportional/fixed as single glyphs at 2 (quick) / 5 (thorough) sizes with "
-         "random spacing, cursor and offset; then random strings (printable, control, >=0x80, CR, few LF) x font numbers -1..3 x "
-         "mode x spacing 0-3 x sizes 1-4 (v=0 included) on a canvas large enough not to clip; each case renders at (cx,cy), at "
-         "(cx+dx,cy+dy) and at size 1; non-trivial = some ink drawn; distinct = distinct record text",
-    trusted_base=["Go `range string` rune decoding and byte(rune) truncation are done by the harness (language runtime)",
-                  "Go int modelled as unbounded Int"],
-    assumptions=["sizes and coordinates small enough that Go int arithmetic does not overflow"],
+    rule="every byte(rune) value 0..255 (except LF) x 3 fonts x proportional/fixed as single glyphs (runes U+0000..U+00FF, UTF-8 "
+         "encoded) at 2 (quick) / 5 (thorough) sizes with random spacing, cursor and offset; runes >= U+0100 (RenderText keeps "
+         "byte(rune): U+010A is a line feed) and malformed UTF-8 (RuneError -> 0xFD); n/4 clipped cases (negative and +-2^31 "
+         "cursors, canvases smaller than the text: box clause + model comparison only); then random strings (printable, "
+         "control, Latin-1, runes >= U+0100, stray / truncated / overlong / surrogate byte sequences, CR, LF: up to 3+ lines) x "
+         "font numbers -1..3 x mode x spacing 0-3 x sizes 1-4 (v=0 included) on a canvas large enough not to clip; each case "
+         "renders at (cx,cy), at (cx+dx,cy+dy) and at size 1 and reports StrWidth of the whole string and of every "
+         "LF-separated segment at both sizes; non-trivial = some ink drawn; distinct = distinct record text",
+    trusted_base=["Go `range string` decoding is modelled (Model/GoRunes.lean) and compared on every record; the harness only cuts "
+                  "the string at runes whose byte is 10 to ask StrWidth for each line",
+                  "Go int: see C16.int64_safe"],
+    assumptions=["sizes and coordinates below 2^31 (no Go int overflow, C16.int64_safe)",
+                 "translation / scale clauses are demanded of unclipped renderings only (Spec.Text.unclipped, evaluated on the "
+                 "implementation's reported metrics); the box clauses always"],
 )
 
 CLAIM = dict(
-    text="Lean theorem C20.ink_in_box: for every string without line feed, every font number, mode, spacing, size h>=0 and any v, any canvas, bounding box and cursor, with wrapping off, RenderText changes no stored bit outside clip ∩ [cx, cx+StrWidth+h) x [cy, cy+v*cellHeight) (= LineHeight by lineHeight_eq); drawChar_index_in_range / font_tables_sized / glyph_facts: over the font tables regenerated from /repo, no table index used for any byte is out of range. C20.translation / translation_fits: on a blank canvas with wrapping off and background = text colour, when no glyph is rejected by DrawChar's whole-glyph off-canvas test (implied by the text box lying on the canvas, noEarly_of_fits), the rendering at cursor (cx+dx, cy+dy) read at (X+dx, Y+dy) equals the rendering at (cx, cy) read at (X, Y), for every string, font, mode, spacing and size. C20.scale_zero_spacing: with extra spacing 0, the size-(h,v) rendering read at (cx+h*I+p, cy+v*J+q), 0<=p<h, 0<=q<v, equals the size-1 rendering read at (cx+I, cy+J). Both are also checked on the real renderer for every byte x font x mode and random strings (model = implementation, and the Spec predicate on the implementation's three renderings). Known finding C20.scale_with_spacing (scale_with_spacing_counterexample): with extra character spacing > 0, size h > 1 and >= 2 glyphs the scaling clause is false of the code.",
-    note=TB + "Translation/scale theorems are about a blank canvas with background = text colour and wrapping off; clipped/partially off-canvas renderings are covered by ink_in_box and the correspondence only.",
-    technique="Lean 4 proof (induction over the string with generalised cursor on top of the C16 frame calculus; kernel decide over regenerated font tables) + model/implementation correspondence",
+    text="Lean theorems over Model/Mono.lean (strings as byte(rune) lists; Model/GoRunes.lean models Go's range decoding and the truncation). C20.ink_in_box / ink_in_box_lines: for every string (line feeds included: renderText_lf, one box per LF-separated line, first line at the cursor, the others at column 0), every font number, mode, spacing, size h>=0 and any v, any canvas, bounding box and cursor, with wrapping off, RenderText changes no stored bit outside the clipped line boxes [x, x+StrWidth(line)+h) x [y, y+v*cellHeight) (= LineHeight by lineHeight_eq). Font tables regenerated from /repo: no table index used for any byte is out of range (drawChar_index_in_range, font_tables_sized, glyph_facts), glyphs are at most 9 columns wide. C20.translation_any / translation_lines: on any starting canvas and bounding box, background = text colour, wrapping off, no glyph rejected by DrawChar's whole-glyph test, the rendering at (cx+dx, cy+dy) read at (X+dx, Y+dy) and the rendering at (cx, cy) read at (X, Y) are both painted or both untouched (line feeds: first line moves by (dx,dy), the others by (0,dy)); translation / translation_fits are the blank-canvas instances. C20.scale_general: size (h,v) with extra spacing h*k equals size 1 with extra spacing k enlarged h x v (scale_zero_spacing: k=0; scale_single_glyph: one glyph, any spacings). C20.wrap_irrelevant (text box + 8h fits => wrap on = wrap off; wrap_box_fits_counterexample shows a mere fit is not enough), strWidth_append. C20.spec_check_holds: the executable predicate Spec.Text.check itself answers `none` on the model's three renderings for every string without line feed, spacing 0, sizes >= 1, any cursor and offset, blank canvases of width a multiple of 8. All clauses (per line for strings with line feeds) are also evaluated on the real renderer's output for every byte x font x mode and random strings incl. multi-byte and malformed UTF-8 (model = implementation, Spec on the implementation's renderings). Known finding C20.scale_with_spacing (scale_with_spacing_counterexample): with the same extra character spacing > 0 on both sides, size h > 1 and >= 2 glyphs on a line the scaling clause is false of the code.",
+    note=TB + "spec_check_holds is for one-line strings on canvases whose width is a multiple of 8; for strings with line feeds the Spec-level statement is checked on every run, the model-level per-line theorems are ink_in_box_lines / translation_lines / scale_general. Clipped renderings (negative cursors etc.): box clauses and model comparison only.",
+    technique="Lean 4 proof (induction over the string with generalised cursor on top of the C16 frame/paint calculus; kernel decide over regenerated font tables; executable Spec connected to the model by a bit-level bridge) + model/implementation correspondence",
 )
